@@ -24,6 +24,15 @@ func applyKnown(all []*Obligation, known []KnownFinding, prop string) []*Obligat
 				break
 			}
 		}
+		if kf != nil && (o.Kind == "owner" || o.Kind == "site-enum") {
+			// syntactic obligations have no input space to split: the listed site is the finding
+			if o.Status != "unsat" {
+				o.Known = kf
+				o.knownPart = "inside"
+			}
+			out = append(out, o)
+			continue
+		}
 		if kf == nil || o.Cover || o.env == nil {
 			out = append(out, o)
 			continue
